@@ -3364,6 +3364,8 @@ HPread_drec(int32 file_id, atom_t data_id, uint8 **drec_buf)
     uint16 drec_tag, drec_ref; /* description record tag/ref */
     int32  ret_value = 0;
 
+    *drec_buf = NULL;
+
     /* get the info for the dataset (description record) */
     if (HTPinquire(data_id, &drec_tag, &drec_ref, NULL, &drec_len) == FAIL)
         HGOTO_ERROR(DFE_INTERNAL, FAIL);
@@ -3379,12 +3381,20 @@ HPread_drec(int32 file_id, atom_t data_id, uint8 **drec_buf)
         HGOTO_ERROR(DFE_BADAID, FAIL);
     if (Hread(drec_aid, 0, *drec_buf) == FAIL)
         HGOTO_ERROR(DFE_READERROR, FAIL);
-    if (Hendaccess(drec_aid) == FAIL)
+    if (Hendaccess(drec_aid) == FAIL) {
+        drec_aid = FAIL;
         HGOTO_ERROR(DFE_CANTENDACCESS, FAIL);
+    }
 
     ret_value = drec_len;
 
 done:
+    if (ret_value == FAIL) { /* the caller gets no buffer and no access record stays attached */
+        if (drec_aid != FAIL)
+            Hendaccess(drec_aid);
+        free(*drec_buf);
+        *drec_buf = NULL;
+    }
     return ret_value;
 } /* HPread_drec */
 
